@@ -2,6 +2,8 @@
 # tools/try_seed.sh <seed-dir-name> <property> [extra check args]: apply a seeded change to /repo, run one check, undo.
 seed=$1; prop=$2; shift 2
 cd /verif
+# runs against a modified tree must not overwrite the committed evidence
+export VERIF_EVIDENCE_DIR=/tmp/verif-evidence-scratch
 git -C /repo apply /verif/seeded/$seed/patch.diff || { echo "patch does not apply"; exit 9; }
 ./check $prop "$@" > /tmp/try_$seed_$prop.log 2>&1; rc=$?
 git -C /repo checkout -- . 
